@@ -64,6 +64,7 @@ class App(object):
         self.cut = beh.get('cut')
         self.cut_done = False
         self.reached_play = False
+        self.success_end = None
 
 
 class Server(object):
@@ -87,7 +88,7 @@ class Server(object):
         app.out_plain += data
         app.out_frames.append((start, start + len(data), kind))
         seq = self.sim.log('srv-send', (conn.index, kind, len(data)))
-        app.sent.append((seq, kind, info))
+        app.sent.append((seq, kind, info, self.sim.now))
         wire_bytes = app.enc_out.update(data) if app.enc_out else data
         if app.cut is not None:
             room = app.cut - conn.s2c_sent
@@ -166,6 +167,7 @@ class Server(object):
         pid, body, meta = fr
         seq = self.sim.log('srv-frame', (app.conn.index, app.state, pid,
                                          len(body)))
+        meta['vtime'] = self.sim.now
         app.frames.append((seq, app.state, pid, body, meta))
         st = app.state
         try:
@@ -368,6 +370,7 @@ class Server(object):
                            'login-success')
                 app.state = 'play'
                 app.reached_play = True
+                app.success_end = len(app.out_plain)
                 self._run_play(app)
             elif op == 'disconnect':
                 self._send(app, ids['cb.login.disconnect'], string(step[1]),
@@ -422,6 +425,14 @@ class Server(object):
         if op == 'frame':
             return item[1], bytes.fromhex(item[2])
         raise ValueError('bad play item %r' % (item,))
+
+    def inject(self, app, item):
+        """Send one extra play item now (called from an event)."""
+        if app.state in ('play', 'paused') and not app.conn.server_closed:
+            pid, body = self.encode_play(app, item)
+            self._send(app, pid, body, item[0], item)
+            return True
+        return False
 
     def _run_play(self, app):
         items = app.beh.get('play') or []
